@@ -21,7 +21,7 @@ CLAIMS = {
  "C10": dict(text="Full for the model: add never panics (also 1x1 sketch), the two indexes stay consistent, iter yields min(k, distinct) distinct added elements, held counts are sandwiched true <= n <= true+E, a missing element is justified by k held elements within E, exact top-k when collision-free.", design="7/C10", technique=T),
  "C11": dict(text="Theorems: block arithmetic of the packed tables is tight (e*len <= 64*blocks < e*len+64) and container sizes are functions of the configuration; the tie below the API is a heap measurement with a counting allocator compared against the model's byte formula (exact for cuckoo/quotient tables) and against the documented sizes within 2x+slack for all nine structures across stream lengths, clear and failed operations.", design="7/C11", technique="Lean 4 theorems on block/size arithmetic + exact heap-byte correspondence (counting allocator) + measurement sweep"),
  "C12": dict(text="Full for the model: a failed cuckoo insert (after any number of evictions, any RNG) or union (failing at any transferred fingerprint) restores exactly the original table and count; quotient insert/union failures return the untouched state; the other operand is an immutable argument.", design="7/C12", technique=T),
- "C13": dict(text="Quotient filter as an exact set of (quotient, remainder) classes: refinement theorems as far as proved (see evidence: theorem list), plus exhaustive insertion orders for tiny tables in the correspondence.", design="7/C13", technique=T),
+ "C13": dict(text="Full for the model, every table size N > 0 (ring arithmetic, wrap-around, full tables): scan/query correct and terminating within fuel, insert returns Ok(true)/Ok(false)/Full exactly as the exact set of (quotient, remainder) pairs prescribes and never hits the infinite-loop panic, len = number of stored pairs, histories refine the set specification, calc_quotient_remainder = low q+r bits, indistinguishable iff equal modulo 2^(q+r), union = set union or Full iff it does not fit; plus exhaustive insertion orders for tiny tables in the correspondence.", design="7/C13", technique=T),
  "C14": dict(text="Full for the model: cuckoo filter refines a multiset of fingerprint classes for every hasher, RNG and kick limit: insert Ok => true and +1 copy after any eviction chain, delete removes exactly one copy iff present, query iff present, len = ok inserts - ok deletes, insert succeeds below bucketsize, class = the property's own indistinguishability.", design="7/C14", technique=T),
  "C15": dict(text="Exact-arithmetic theorems (any ordered field, any scale function): quantile/cdf monotone, within [min,max]/[0,1], end values, mutual consistency for strict knots, reads idempotent; IEEE rounding is outside the theorems and covered by the float-level correspondence and oracle with the stated ulp allowance.", design="7/C15", technique=T),
  "C16": dict(text="Exact-arithmetic theorems (any ordered field, scale function, backlog size, read positions): count = sum of weights, sum/mean exact, min/max exact, zero weight no-op, is_empty iff no positive weight; floating-point accumulation accuracy is checked numerically by the oracle.", design="7/C16", technique=T),
@@ -30,7 +30,7 @@ CLAIMS = {
  "C19": dict(text="Full in the model: for each of the nine models clear(s) equals the constructor's state for s's configuration (state equality, up to the RNG position for cuckoo/reservoir), including TDigest's sample counter. clone independence is trivial on immutable model states; Rust-side aliasing (Rc, RefCell) is covered by the correspondence: clone, divergent mutation, observation.", design="7/C19", technique="Lean 4 state-equality theorems per structure + differential correspondence with cleared-vs-fresh and clone/mutate histories"),
  "C20": dict(text="Full in the model: deserialize(serialize s) = s for every valid sketch, every successful deserialisation satisfies the constructor invariants, duplicates/omissions/unknown fields/non-byte registers are errors. serde_json's parsing of text into typed fields is trusted; documents with b and registers length varied independently are run through the real deserialiser.", design="7/C20", technique="Lean 4 theorems over a document-level model of visit_map + differential correspondence on generated (mal)formed documents"),
 }
-ENABLED = ["C01", "C02", "C06", "C04", "C15", "C16", "C11", "C05", "C09", "C10", "C12", "C14", "C17", "C18", "C19", "C20"]
+ENABLED = ["C13", "C01", "C02", "C06", "C04", "C15", "C16", "C11", "C05", "C09", "C10", "C12", "C14", "C17", "C18", "C19", "C20"]
 NOT_YET = "not yet built in this round (planned: Lean model + theorems + correspondence, see DESIGN.md section 7)"
 def main():
     props = [json.loads(l) for l in open(os.path.join(ROOT, "properties.jsonl"))]
